@@ -3,6 +3,7 @@ package props
 import (
 	"crypto/md5"
 	"fmt"
+	"regexp"
 	"sort"
 	"strings"
 	"time"
@@ -33,6 +34,9 @@ type fwdParams struct {
 	Disconnects      bool
 	Sequential       bool // one request in flight in the whole world (C05)
 	FaultFree        bool
+	HoldReplies      bool // backends hold every reply until the whole workload has been sent
+	LowestFree       bool // clients reuse the lowest free stream id
+	CheckTokens      bool // C02 oracle: the reply carries the token of the request on that stream
 }
 
 type prepInfo struct {
@@ -71,6 +75,8 @@ type fwd struct {
 	faults  []*trigFault
 	pending []func() // deferred fault actions (node restarts)
 	fired   map[string]int
+	scriptFn func(tok string, v primitive.ProtocolVersion) []world.OutcomeSpec
+	sharePrepared bool // a successful PREPARE is known to every node at once (no UNPREPARED)
 }
 
 const (
@@ -84,6 +90,8 @@ const (
 	kUse
 	kUnsupported
 	kExecUnknown
+	kGraph       // QUERY with a graph-source custom payload
+	kExecForeign // EXECUTE of an id the backends know but that was never prepared through this proxy
 	nKinds
 )
 
@@ -114,6 +122,7 @@ func (f *fwd) connectClients() bool {
 	for i := 0; i < f.p.Clients; i++ {
 		v := f.p.Versions[f.e.C.Choose("cver", len(f.p.Versions))]
 		c := w.ConnectClient(f.pi, v)
+		c.LowestFree = f.p.LowestFree
 		comp := f.p.Compression[f.e.C.Choose("ccomp", len(f.p.Compression))]
 		opts := map[string]string{"CQL_VERSION": "3.0.0"}
 		if comp != "" {
@@ -179,6 +188,9 @@ func (f *fwd) workDone() bool {
 }
 
 func (f *fwd) script(tok string, v primitive.ProtocolVersion) []world.OutcomeSpec {
+	if f.scriptFn != nil {
+		return f.scriptFn(tok, v)
+	}
 	c := f.e.C
 	if f.p.ErrPerMille == 0 || c.Choose("script?", 1000) < 1000-f.p.ErrPerMille {
 		return nil
@@ -222,6 +234,10 @@ func (f *fwd) sendOne(i int) {
 		if len(f.usablePreps()) == 0 {
 			kind = kQuery
 		}
+	case kGraph:
+		if c.Version < primitive.ProtocolVersion4 {
+			kind = kQuery // custom payloads need v4
+		}
 	}
 	switch kind {
 	case kQuery:
@@ -229,6 +245,7 @@ func (f *fwd) sendOne(i int) {
 		if ch.Choose("garbage?", 40) == 39 {
 			st = world.Stmt{Text: "FROBNICATE " + tok + " ;;", Idempotent: false}
 		}
+		st.Text = world.Variant(ch, st.Text)
 		ri.kind, ri.idem = "query", st.Idempotent
 		ri.specs = f.script(tok, c.Version)
 		ri.req = c.Send("query", tok, world.QueryMsg(st.Text, cl), nil)
@@ -264,10 +281,7 @@ func (f *fwd) sendOne(i int) {
 		idem := true
 		for j := 0; j < n; j++ {
 			if ch.Choose("batchchild", 2) == 0 {
-				st := world.DrawStmt(ch, "'"+tok+"'", "ks.t")
-				for st.Select {
-					st = world.DrawStmt(ch, "'"+tok+"'", "ks.t")
-				}
+				st := world.DrawMutation(ch, "'"+tok+"'", "ks.t")
 				idem = idem && st.Idempotent
 				b.Children = append(b.Children, &message.BatchChild{Query: st.Text})
 			} else {
@@ -293,6 +307,22 @@ func (f *fwd) sendOne(i int) {
 		ks := []string{"ks1", "ks2", "\"Ks3\""}[ch.Choose("useks", 3)]
 		ri.kind = "use"
 		ri.req = c.Send("use", "", world.QueryMsg("USE "+ks, cl), nil)
+	case kGraph:
+		// graph statements are opaque to the proxy; whether they may be retried is configuration
+		ri.kind, ri.idem = "graph", f.w.Cfg.IdempotentGraph
+		ri.specs = f.script(tok, c.Version)
+		ri.req = c.Send("query", tok, world.QueryMsg("g.V().has('k','"+tok+"').property('v', 1)", cl), func(fr *frame.Frame) {
+			fr.SetCustomPayload(map[string][]byte{"graph-source": []byte("g"), "graph-language": []byte("gremlin-groovy")})
+		})
+	case kExecForeign:
+		id := f.foreignID()
+		ri.kind, ri.idem = "execute-foreign", false
+		ri.specs = f.script(tok, c.Version)
+		var rm []byte
+		if c.Version.SupportsResultMetadataId() {
+			rm = id
+		}
+		ri.req = c.Send("execute", tok, world.ExecMsg(id, rm, tok, cl), nil)
 	case kUnsupported:
 		ri.kind = "unsupported"
 		ri.req = c.Send("unsupported", "", &message.AuthResponse{Token: []byte("x")}, nil)
@@ -304,17 +334,88 @@ func (f *fwd) sendOne(i int) {
 	ri.req.Idempotent = ri.idem
 }
 
+// foreignID returns a prepared id that every backend node knows (as if another client had
+// prepared it directly at the cluster) but that never went through the proxy, so the proxy
+// cannot know its text.
+func (f *fwd) foreignID() []byte {
+	id := md5.Sum([]byte("foreign-statement"))
+	for _, n := range f.w.Nodes {
+		n.Prepared[fmt.Sprintf("%x", id[:])] = "INSERT INTO ks.t (k, v) VALUES (?, 1)"
+	}
+	return id[:]
+}
+
 // onReply keeps the harness's knowledge of prepared ids current.
 func (f *fwd) onReply(req *world.ClientReq, rep *world.ClientReply) {
 	ri := f.info[req]
+	if f.p.CheckTokens && ri != nil {
+		f.checkToken(ri, rep)
+	}
 	if ri == nil || ri.kind != "prepare" || rep.Frame == nil {
 		return
 	}
 	if pr, ok := rep.Frame.Body.Message.(*message.PreparedResult); ok {
+		if f.sharePrepared {
+			for _, n := range f.w.Nodes {
+				n.Prepared[fmt.Sprintf("%x", pr.PreparedQueryId)] = ri.prep.stmt.Text
+			}
+		}
 		ri.prep.id = pr.PreparedQueryId
 		ri.prep.rmid = pr.ResultMetadataId
 		ri.prep.usable = true
 	}
+}
+
+var tokRe = regexp.MustCompile(`tok[0-9]+x`)
+
+// checkToken is the C02 oracle: whatever token a reply carries must be the token of the
+// request this client sent on that stream.
+func (f *fwd) checkToken(ri *reqInfo, rep *world.ClientReply) {
+	if rep.Frame == nil {
+		return
+	}
+	req := ri.req
+	got := ""
+	switch m := rep.Frame.Body.Message.(type) {
+	case *message.RowsResult:
+		if m.Metadata != nil && len(m.Metadata.Columns) == 1 && m.Metadata.Columns[0].Name == "tok" && len(m.Data) == 1 {
+			got = string(m.Data[0][0])
+		} else if req.Token != "" {
+			f.w.Violate("c02-token", "reply-mismatch(kind)", fmt.Sprintf("request %s (forwarded, token %s) was answered with a ROWS result that no backend produced for it: %v", req, req.Token, m))
+			return
+		}
+	case *message.PreparedResult:
+		if ri.kind != "prepare" {
+			f.w.Violate("c02-token", "reply-mismatch(kind)", fmt.Sprintf("request %s was answered with a PREPARED result", req))
+			return
+		}
+		f.w.Stat("oracle.c02.prepared_checked")
+		if q, ok := req.Msg.(*message.Prepare); ok {
+			if t := tokRe.FindString(q.Query); t != "" {
+				got = tokenOfPreparedID(f, m.PreparedQueryId)
+			}
+		}
+	case message.Error:
+		got = tokRe.FindString(m.GetErrorMessage())
+	}
+	if got == "" {
+		return
+	}
+	f.w.Stat("oracle.c02.tokens_checked")
+	if got != req.Token {
+		f.w.Violate("c02-token", "reply-mismatch", fmt.Sprintf("%s received on stream %d the answer to %s, but the request it sent on that stream is %s (%s)", req.Client, req.Stream, got, req.Token, req))
+	}
+}
+
+// tokenOfPreparedID maps a prepared id back to the token of the PREPARE text that produces it.
+func tokenOfPreparedID(f *fwd, id []byte) string {
+	for _, p := range f.preps {
+		want := md5.Sum([]byte(p.stmt.Text + "\x00"))
+		if string(want[:]) == string(id) {
+			return p.token
+		}
+	}
+	return "tok-unknown-prepared-id-x"
 }
 
 // ---------------------------------------------------------------- triggered faults
@@ -435,7 +536,16 @@ func (f *fwd) runWorkload(drain time.Duration) (drained bool) {
 	w.DoWork = func(i int) { f.sendOne(en[i]) }
 	w.ClockOn = true
 	w.ClockBudget = f.e.C.Choose("clockbudget", 4)
+	savePeer := w.Cfg.WPeer
+	if f.p.HoldReplies {
+		w.Cfg.WPeer = 0
+		w.ClockBudget = 0
+	}
 	w.RunUntil(f.workDone, 2*time.Hour)
+	if f.p.HoldReplies {
+		w.Quiesce() // everything sent has reached a backend (or was refused) before the first reply is released
+	}
+	w.Cfg.WPeer = savePeer
 	w.Workload = nil
 	w.ClockOn = false
 	// faults stop; everything crashed comes back; stalled nodes stay stalled (their
